@@ -244,6 +244,10 @@ class OutputReference:
                     break
                 overlap += 1
 
+            # VV: The entire scope location must be a prefix of the location of the OutputReference
+            if overlap != len(other_loc):
+                continue
+
             if overlap > largest_overlap:
                 best = other_loc
                 largest_overlap = overlap
@@ -1612,7 +1616,10 @@ class ScopeStack:
                             try:
                                 producer = self.scopes[tuple(location)]
                                 if isinstance(producer.template, Component) is False:
-                                    continue
+                                    # VV: The reference points to a Workflow (or to something that is not a step
+                                    # inside a Workflow). There is no producer Component to visit. The code which
+                                    # converts OutputReferences to DataReferences reports the problem
+                                    producer = None
                                 break
                             except KeyError:
                                 # VV: This location doesn't map to a component. The OutputReference must be pointing
